@@ -87,16 +87,34 @@ Proof.
   subst n. rewrite Nat2N.id, firstn_app_exact, skipn_app_exact. reflexivity.
 Qed.
 
-Definition check_ok (check : N) : Prop := check = 0 \/ check = 1 \/ check = 4.
+(** a SHA-256 value has 32 bytes *)
+Lemma transform_len K h b : length h = 8%nat -> length (transform K h b) = 8%nat.
+Proof. intro H. unfold transform. rewrite map_length, combine_length, H. reflexivity. Qed.
+Lemma blocks_len K fuel : forall h bs, length h = 8%nat -> length (blocks K fuel h bs) = 8%nat.
+Proof.
+  induction fuel as [|f IH]; intros h bs H; cbn [blocks]; [exact H|].
+  destruct bs; [exact H|]. apply IH. apply transform_len. exact H.
+Qed.
+Lemma flat_be4_len (l : list N) : length (flat_map (Base.be_bytes 4) l) = (4 * length l)%nat.
+Proof.
+  induction l as [|a l IH]; [reflexivity|]. cbn [flat_map]. rewrite app_length, IH.
+  unfold Base.be_bytes. rewrite rev_length, le_bytes_length. cbn [length]. lia.
+Qed.
+Lemma sha256_length msg : length (sha256 msg) = 32%nat.
+Proof.
+  unfold sha256, sha256_from. rewrite flat_be4_len, blocks_len; [reflexivity|reflexivity].
+Qed.
+
+Definition check_ok (check : N) : Prop := check = 0 \/ check = 1 \/ check = 4 \/ check = 10.
 
 Lemma check_value_length check data : check_ok check -> lenN (check_value check data) = check_size check.
 Proof.
-  intros [H|[H|H]]; subst check; unfold check_value, check_size, lenN; cbn [N.eqb Pos.eqb N.leb N.compare Pos.compare Pos.compare_cont];
-    rewrite ?le_bytes_length; reflexivity.
+  intros [H|[H|[H|H]]]; subst check; unfold check_value, check_size, lenN; cbn [N.eqb Pos.eqb N.leb N.compare Pos.compare Pos.compare_cont];
+    rewrite ?le_bytes_length, ?sha256_length; reflexivity.
 Qed.
 
 Lemma check_ok_supported check : check_ok check -> check_supported check = true /\ check < 16.
-Proof. intros [H|[H|H]]; subst check; split; try reflexivity; lia. Qed.
+Proof. intros [H|[H|[H|H]]]; subst check; split; try reflexivity; lia. Qed.
 
 Record blockspec := { b_db : N; b_chunks : list l2chunk }.
 Definition s_init : l2 := norm (l2_init [] []).
